@@ -40,3 +40,55 @@ Theorem C04_never_faults : forall nw lim autostart choices clients nslots sched,
   forall th, In th (c_thr c) -> t_dead th = false.
 Proof. exact pool_never_panics. Qed.
 Print Assumptions C04_exactly_once_one_result.
+
+(** ---- trace-level statements (what holds once Stop has RETURNED, where an accepted task is,
+    backpressure and cancellation).
+    Vocabulary.
+    - [accepted x tr]: the trace contains the return of the submission of task x
+      with "accepted": Do / Execute returned, TryDo / TryExecute returned true.
+    - [returned x tr]: the submission of x has returned (any value).
+    - [results c tr x]: the results delivered to x's result channel so far:
+      those still in the channel, followed by those already received (the trace
+      records them: Await / PollRes returned a value).
+    - [res_ok x n r]: r is x's own value and n = 1, or r is the cancellation
+      result and n = 0 (n = number of executions of x).
+    - [stop_done c]: the state word is 2 and no thread is between Stop's CAS
+      and the end of its drain loop, i.e. the Stop call that won the CAS has
+      returned.  A second Stop call racing with the first returns at once
+      ([PoolSafeExamples.second_stop_returns_early]), so "some Stop call has
+      returned" alone is NOT enough; it is enough when no thread is inside a
+      Stop call any more, or when the programs contain at most one Stop.
+    - [Hwk x], [Hdr x], [H1 x]: number of worker goroutines holding x (taken
+      from the queue, not yet answered) / of drain loops holding x / of
+      workers executing x. *)
+From Garr Require Import Pool.PoolStopDone Pool.PoolAcct Pool.PoolHist Pool.PoolAfterStop Pool.PoolStopCount
+  Pool.PoolLateSubmit Pool.PoolSelect Pool.PoolTimers Pool.PoolLive Pool.PoolProgress Pool.PoolFacts.
+
+(** C04 / C12 - in EVERY reachable configuration a task has at most one result, and it is the right one *)
+Theorem C04_One_result_per_task : forall nw lim autostart choices clients nslots,
+  clients_ok clients -> forall sched x,
+  let c := final (pool nw lim) (pool_cfg nw autostart choices clients nslots) sched in
+  let tr := trace (pool nw lim) (pool_cfg nw autostart choices clients nslots) sched in
+  length (results c tr x) <= 1 /\
+  forall r, In r (results c tr x) ->
+    exists t, get_task (c_sh c) x = Some t /\ res_ok x (tk_execs t) r /\ tk_execs t <= 1.
+Proof. exact one_result_per_task. Qed.
+
+(** (C) C12 - no stranding, safety form: an accepted task that has not got its result is in exactly
+    one of: the queue, a live worker goroutine, Stop's drain loop *)
+Theorem C04_Accepted_task_has_owner : forall nw lim autostart choices clients nslots,
+  clients_ok clients -> forall sched x,
+  let c := final (pool nw lim) (pool_cfg nw autostart choices clients nslots) sched in
+  let tr := trace (pool nw lim) (pool_cfg nw autostart choices clients nslots) sched in
+  accepted x tr ->
+  has_task (c_sh c) x /\
+  cnt (p_queue (c_sh c)) x + Hwk x (aths c) + Hdr x (aths c) + length (results c tr x) = 1 /\
+  (1 <= cnt (p_queue (c_sh c)) x <-> In x (p_queue (c_sh c))) /\
+  (1 <= Hwk x (aths c) <->
+     exists i th o l, length clients <= i /\ i - length clients < length (p_spawned (c_sh c)) /\
+       nth_error (c_thr c) i = Some th /\ t_cur th = Some (o, l) /\ worker_pc l = true /\ tokw l = Some x) /\
+  (1 <= Hdr x (aths c) <-> exists i, at_pc c i (XDrainSend x)).
+Proof. exact accepted_task_has_owner. Qed.
+
+Print Assumptions C04_One_result_per_task.
+Print Assumptions C04_Accepted_task_has_owner.
